@@ -114,8 +114,63 @@ def driver_tie(ck):
         if why:
             ck.violation("C14 fails on the real binary (task-based RHD stopped by its wall-clock limit, restart folder '%s'): %s" % (rdir, why), {"driver_run": name}, key={"kind": "driver", "case": name})
         shutil.rmtree(w, ignore_errors=True)
+    n += stop_file_tie(ck, exe, conf)
     ck.coverage["driver_runs_checked"] = n
     return n
+
+
+def stop_file_tie(ck, exe, conf):
+    """a run that has taken regular dumps is asked to stop with a stop file: the request is consumed, the run takes its final dump and
+    ends normally, the newest state is in restart.dump, the configured two backups are kept and every one of them is a complete dump"""
+    import subprocess, time
+    name = "stop_file_after_dumps"
+    w = os.path.join(ck.scratch, "drv_" + name)
+    shutil.rmtree(w, ignore_errors=True)
+    os.makedirs(w)
+    for f in os.listdir(conf):
+        shutil.copy(os.path.join(conf, f), w)
+    txt = open(os.path.join(conf, "hydro.param")).read()
+    txt = txt.replace("total time: 0.02 s", "total time: 20. s")
+    txt = txt.replace("RestartManager:\n  path: .\n  output interval: 0. s\n  maximum number of backups: 1\n",
+                      "RestartManager:\n  path: .\n  output interval: 0. s\n  maximum number of backups: 2\n")
+    open(os.path.join(w, "run.param"), "w").write(txt)
+    log = open(os.path.join(w, "run.log"), "w")
+    p = subprocess.Popen([exe, "--task-based-rhd", "--params", "run.param", "--threads", "1", "--dirty"], cwd=w, stdout=log, stderr=subprocess.STDOUT)
+    t0, asked = time.time(), False
+    while time.time() - t0 < 120 and p.poll() is None:
+        if all(os.path.exists(os.path.join(w, f)) for f in ("restart.dump", "restart.0.back", "restart.1.back")):
+            open(os.path.join(w, "stop"), "w").close()
+            asked = True
+            break
+        time.sleep(0.02)
+    if not asked:
+        p.kill()
+        p.wait()
+        ck.breaks.append("driver tie %s: the run did not take three dumps within 120 s (exit %r)" % (name, p.returncode))
+        shutil.rmtree(w, ignore_errors=True)
+        return 0
+    try:
+        rc = p.wait(timeout=120)
+    except subprocess.TimeoutExpired:
+        p.kill()
+        p.wait()
+        rc = "timeout: the run did not stop within 120 s of the stop request"
+    log.close()
+    why = None
+    sizes = {f: os.path.getsize(os.path.join(w, f)) for f in os.listdir(w) if f.startswith("restart.")}
+    if rc != 0:
+        why = "the run exits with status %r after the stop request (restart files left: %s)" % (rc, sizes)
+    elif os.path.exists(os.path.join(w, "stop")):
+        why = "the stop file is still there after the run ended (the request was not consumed; restart files: %s)" % sizes
+    elif sorted(sizes) != ["restart.0.back", "restart.1.back", "restart.dump"]:
+        why = "after the final dump the restart folder holds %s instead of restart.dump and two backups" % sorted(sizes)
+    elif len(set(sizes.values())) != 1 or min(sizes.values()) == 0:
+        why = "the dumps of the same run have different sizes %s: one of them is not a complete dump" % sizes
+    if why:
+        ck.violation("C14 fails on the real binary (task-based RHD, a dump after every step, 2 backups, stop file created after three dumps): " + why, {"driver_run": name},
+                     key={"kind": "driver", "case": name})
+    shutil.rmtree(w, ignore_errors=True)
+    return 1
 
 
 def run(ck):
